@@ -478,7 +478,7 @@ fn gen_template(rng: &mut Rng, density: f64) -> JobSpec {
     let k = rng.range(2, 5) as usize;
     let names = pick_names(rng, k);
     let y = |rng: &mut Rng| yields(rng, density);
-    let which = rng.below(15);
+    let which = rng.below(17);
     let text: String = match which {
         0 => {
             // keywords() of an argument list
@@ -605,6 +605,18 @@ fn gen_template(rng: &mut Rng, density: f64) -> JobSpec {
             s.push_str(&format!(".{} .{} {{ t: u; }}\n.z {{ @extend .x1-{}; }}\n", n[1], n[0], n[1]));
             s
         }
+        15 => {
+            // two rules whose selector lists are equal as values but differ in how they are
+            // written (line break after the comma) or in which of their members the author
+            // wrote, both ahead of a later @extend: anything that treats the two as one entry
+            // lets the one that happens to be visited first decide the text of both
+            let n = &names;
+            if rng.chance(0.5) {
+                format!(".{a}, .{b} {{ x: y; }}\n{y}.{a},\n.{b} {{ x: z; }}\n.{c}-ext {{ @extend .{a}; }}\n", a = n[0], b = n[1], c = n[n.len() - 1], y = y(rng))
+            } else {
+                format!(".p-{a} .{b} {{ x: y; }}\n.p-{a} .{b}, .p-{a} .{a}.{c} {{ x: z; }}\n{y}.{a}.{c} {{ @extend .{b}; }}\n.{c} {{ @extend .{a}; }}\n", a = n[0], b = n[1], c = n[n.len() - 1], y = y(rng))
+            }
+        }
         _ => {
             // global variables and functions listed by meta
             let v: Vec<String> = names.iter().map(|n| format!("${}: 1;", n)).collect();
@@ -639,7 +651,7 @@ fn gen_history_pair(rng: &mut Rng, density: f64) -> (JobSpec, JobSpec) {
         j
     };
     let y = yields(rng, density);
-    let which = rng.below(10);
+    let which = rng.below(11);
     let (a, b) = match which {
         0 => {
             // a built-in module's variable assigned through a plain @forward of that module
@@ -700,6 +712,23 @@ fn gen_history_pair(rng: &mut Rng, density: f64) -> (JobSpec, JobSpec) {
             let mut first = mk("pair9:first", vec![], Err(format!("{}{}a {{ b: sum(400); @include deep(300); }}\n", f, y)));
             first.eval_fuel = *rng.pick(&[200u64, 500, 800, 1300]);
             let second = mk("pair9:second", vec![], Err(format!("{}{}a {{ b: sum(300); @include deep(300); }}\n", f, y)));
+            (first, second)
+        }
+        10 => {
+            // the same source under other options: anything derived from the options of the first
+            // compilation that gets there (a table built once per process, a cached separator or
+            // glyph set) shows in the second. Colour names longer than their hex form, a computed
+            // colour, a repeating fraction, non-ASCII text, and optionally an error to render.
+            let err = if rng.chance(0.4) { "@error \"stop é\";\n" } else { "" };
+            let t = format!("{}a {{ c: blanchedalmond; d: mix(white, white); e: (1 / 3); f: \"é\"; g: #ffebcd; h: rgba(255, 235, 205, 1) red; }}\n{}", y, err);
+            let mut first = mk("pair10:first", vec![], Err(t.clone()));
+            let mut second = mk("pair10:second", vec![], Err(t));
+            first.compressed = rng.chance(0.5);
+            first.unicode = rng.chance(0.5);
+            first.charset = rng.chance(0.5);
+            second.compressed = !first.compressed;
+            second.unicode = if rng.chance(0.7) { !first.unicode } else { first.unicode };
+            second.charset = if rng.chance(0.7) { !first.charset } else { first.charset };
             (first, second)
         }
         _ => {
@@ -816,8 +845,16 @@ fn gen_case(rng: &mut Rng, ctx: &Ctx, pools: &Pools) -> SchedCase {
     };
     let mut proc_refs = vec![];
     for _ in 0..1 {
-        let t = rng.usize_below(threads.len());
-        let k = rng.usize_below(threads[t].jobs.len());
+        let mut t = rng.usize_below(threads.len());
+        let mut k = rng.usize_below(threads[t].jobs.len());
+        // prefer the observing half of a mutate-then-observe pair: it is the job most likely to
+        // differ from what it would be as the first compilation of a fresh process
+        let seconds: Vec<(usize, usize)> = threads.iter().enumerate().flat_map(|(ti, th)| th.jobs.iter().enumerate().filter(|(_, j)| j.label.ends_with(":second")).map(move |(ki, _)| (ti, ki))).collect();
+        if !seconds.is_empty() && rng.chance(0.7) {
+            let pick = *rng.pick(&seconds);
+            t = pick.0;
+            k = pick.1;
+        }
         if !proc_refs.contains(&(t, k)) {
             proc_refs.push((t, k));
         }
